@@ -809,6 +809,8 @@ def _calls_outer_first(e: ast.AST) -> list[ast.Call]:
 
 
 _EQ_CONST = None
+_LIN_ATOMS: dict = {}  # printed linear atom -> (terms, K, kind, non-negative terms); filled by Printer._bool
+_LIN_CLASH_MEMO: dict = {}
 
 
 def _atom_theory(atoms: list) -> list:
@@ -855,6 +857,14 @@ def _atom_theory(atoms: list) -> list:
             if not c.startswith("'"):
                 for kk, la in lst:
                     out.append([(a, True), (la, not (int(c) < kk))])
+    # linear arithmetic over several atoms (and value-range facts): combinations no integers satisfy
+    lin = {a: _LIN_ATOMS[a] for a in atoms if a in _LIN_ATOMS}
+    if lin:
+        key = tuple(sorted(lin))
+        if key not in _LIN_CLASH_MEMO:
+            from .ranges import linear_clashes
+            _LIN_CLASH_MEMO[key] = linear_clashes(lin)
+        out.extend(_LIN_CLASH_MEMO[key])
     for a in atoms:
         if a.startswith("Eq(str, type(") and a.endswith("))"):
             x = a[len("Eq(str, type("):-2]
@@ -1052,20 +1062,35 @@ class Printer:
         for n in ast.walk(t):
             if isinstance(n, ast.BinOp):
                 n._lin_done = True  # type: ignore[attr-defined]
+        lin_terms = tuple((k, c) for k, c, x in live)
+        lin_nonneg = frozenset(k for k, c, x in live if self._nonneg(x))
         if eq:
             # +-T + c0 == 0   <=>   T == -+c0
             out = ast.Compare(left=ast.Constant(value=c0 if flip else -c0), ops=[ast.Eq()], comparators=[t])
             out._lin_cmp = True  # type: ignore[attr-defined]
+            out._lin_info = (lin_terms, c0 if flip else -c0, "eq", lin_nonneg)  # type: ignore[attr-defined]
             return out, False
         if not flip:
             # T + c0 < 0   <=>   T < -c0
             out = ast.Compare(left=t, ops=[ast.Lt()], comparators=[ast.Constant(value=-c0)])
             out._lin_cmp = True  # type: ignore[attr-defined]
+            out._lin_info = (lin_terms, -c0, "lt", lin_nonneg)  # type: ignore[attr-defined]
             return out, False
         # -T + c0 < 0   <=>   T > c0   <=>   not (T < c0 + 1)      (integers)
         out = ast.Compare(left=t, ops=[ast.Lt()], comparators=[ast.Constant(value=c0 + 1)])
         out._lin_cmp = True  # type: ignore[attr-defined]
+        out._lin_info = (lin_terms, c0 + 1, "lt", lin_nonneg)  # type: ignore[attr-defined]
         return out, True
+
+    def _nonneg(self, x: ast.AST) -> bool:
+        """A term of a linear comparison that is provably >= 0 (value-range facts of `sa.ranges`)."""
+        if isinstance(x, ast.Call) and isinstance(x.func, ast.Name) and x.func.id == "len" and len(x.args) == 1:
+            return True
+        if self.model is not None and isinstance(x, ast.Subscript) and isinstance(x.value, ast.Attribute) and isinstance(x.slice, ast.Constant) \
+                and isinstance(x.slice.value, int) and not isinstance(x.slice.value, bool) and x.slice.value >= 0:
+            from .ranges import attr_elem_nonneg
+            return attr_elem_nonneg(self.model, x.value.attr, x.slice.value)
+        return False
 
     def show_test(self, e: ast.AST) -> str:
         """Canonical print of an expression used for its truth value only."""
@@ -1121,7 +1146,19 @@ class Printer:
             if self._table_get(l):
                 # TABLE.get(k) is None  <=>  k not in TABLE      (a module-level table holds no None)
                 return self._bool(ast.Compare(left=l.args[0], ops=[ast.In()], comparators=[l.func.value]), not pol)  # type: ignore[attr-defined]
-        return ("lit", self._show(e, atom=True), pol)
+        lit = self._show(e, atom=True)
+        info = getattr(e, "_lin_info", None)
+        if info is None and isinstance(e, ast.Compare) and len(e.ops) == 1 and isinstance(e.ops[0], ast.Eq):
+            # K == t  with an integer constant: a linear atom over the one term t
+            for a_, b_ in ((e.left, e.comparators[0]), (e.comparators[0], e.left)):
+                if isinstance(a_, ast.Constant) and isinstance(a_.value, int) and not isinstance(a_.value, bool) \
+                        and not isinstance(b_, ast.Constant) and not _seqlike(b_):
+                    k_ = self._show(b_)
+                    info = (((k_, 1),), a_.value, "eq", frozenset([k_]) if self._nonneg(b_) else frozenset())
+                    break
+        if info is not None:
+            _LIN_ATOMS[lit] = info
+        return ("lit", lit, pol)
 
     def resolve_under(self, expr: ast.AST, cb) -> ast.AST:
         """`expr` with every conditional value whose test the boolean formula `cb` decides replaced by the selected arm."""
@@ -1275,15 +1312,57 @@ class Printer:
             return all(Printer._evalb(x, asg) for x in b[1])
         return any(Printer._evalb(x, asg) for x in b[1])
 
+    def _eq_to_lt(self, bs: list, assume):
+        """`K == T` next to an ordering atom `T < K'` over the same linear term: the equality is written as `T < K+1 and not T < K`, so
+        `T < 2 and T != 1` and `T < 1` (integers) end up as one table over threshold atoms."""
+        import re
+        acc: set = set()
+        for b in bs:
+            self._atoms(b, acc)
+        if assume is not None:
+            self._atoms(assume, acc)
+        lt_by_terms: dict = {}
+        for a in sorted(acc):
+            info = _LIN_ATOMS.get(a)
+            if info and info[2] == "lt":
+                mm = re.match(r"^Lt\((.+), (-?\d+)\)$", a)
+                if mm and self._balanced(mm.group(1)):
+                    lt_by_terms.setdefault(info[0], (mm.group(1), info[3]))
+        sub: dict = {}
+        for a in acc:
+            info = _LIN_ATOMS.get(a)
+            if info and info[2] == "eq" and info[0] in lt_by_terms:
+                tp, nn = lt_by_terms[info[0]]
+                k = info[1]
+                hi, lo = f"Lt({tp}, {k + 1})", f"Lt({tp}, {k})"
+                _LIN_ATOMS.setdefault(hi, (info[0], k + 1, "lt", info[3] | nn))
+                _LIN_ATOMS.setdefault(lo, (info[0], k, "lt", info[3] | nn))
+                sub[a] = (hi, lo)
+        if not sub:
+            return bs, assume
+
+        def rw(b):
+            if b[0] == "lit" and b[1] in sub:
+                hi, lo = sub[b[1]]
+                if b[2]:
+                    return ("and", [("lit", hi, True), ("lit", lo, False)])
+                return ("or", [("lit", hi, False), ("lit", lo, True)])
+            if b[0] in ("and", "or"):
+                return (b[0], [rw(x) for x in b[1]])
+            return b
+
+        return [rw(b) for b in bs], (rw(assume) if assume is not None else None)
+
     def _tables(self, bs: list) -> Optional[tuple[list, list]]:
         """Joint truth tables of several formulas over their relevant atoms: (atoms, [bits])."""
+        assume = getattr(self, "assume", None)
+        bs, assume = self._eq_to_lt(bs, assume)
         acc: set = set()
         for b in bs:
             self._atoms(b, acc)
         atoms = sorted(acc)
         if len(atoms) > self.MAX_ATOMS:
             return None
-        assume = getattr(self, "assume", None)
         if assume is not None:
             # printing under a path condition: combinations it excludes are don't-cares too (then projected away)
             self._atoms(assume, acc)
